@@ -22,6 +22,9 @@ pub struct Direct {
     pub height: u64,
     pub time: u64, // seconds
     pub contract: Addr,
+    /// the chain-level (wasm module) admin of the contract under test, i.e. who may migrate it; answered
+    /// to `WasmQuery::ContractInfo` about the contract's own address. None: the chain knows no admin.
+    pub chain_admin: Option<Addr>,
     pub calls_ok: u64,
     pub calls_err: u64,
     pub calls_panic: u64,
@@ -53,6 +56,7 @@ impl Direct {
             height: START_HEIGHT,
             time: START_TIME,
             contract,
+            chain_admin: None,
             calls_ok: 0,
             calls_err: 0,
             calls_panic: 0,
@@ -84,6 +88,26 @@ impl Direct {
         MessageInfo { sender: sender.clone(), funds: funds.to_vec() }
     }
 
+    /// The querier handed to the contract: the mock chain knows exactly one contract, the one under test
+    /// (code id 1, created by "creator", admin = `chain_admin`).
+    fn querier(&self) -> MockQuerier<Empty> {
+        let mut q: MockQuerier<Empty> = MockQuerier::default();
+        let me = self.contract.clone();
+        let admin = self.chain_admin.clone();
+        let creator = self.api.addr_make("creator");
+        q.update_wasm(move |w| match w {
+            cosmwasm_std::WasmQuery::ContractInfo { contract_addr } if *contract_addr == me.as_str() => {
+                let info = cosmwasm_std::ContractInfoResponse::new(1, creator.clone(), admin.clone(), false, None);
+                cosmwasm_std::SystemResult::Ok(cosmwasm_std::ContractResult::Ok(cosmwasm_std::to_json_binary(&info).unwrap()))
+            }
+            cosmwasm_std::WasmQuery::ContractInfo { contract_addr } | cosmwasm_std::WasmQuery::Smart { contract_addr, .. } | cosmwasm_std::WasmQuery::Raw { contract_addr, .. } => {
+                cosmwasm_std::SystemResult::Err(cosmwasm_std::SystemError::NoSuchContract { addr: contract_addr.clone() })
+            }
+            _ => cosmwasm_std::SystemResult::Err(cosmwasm_std::SystemError::UnsupportedRequest { kind: "wasm".into() }),
+        });
+        q
+    }
+
     /// Run a state-changing entry point as one transaction.
     pub fn tx<E: Display>(
         &mut self,
@@ -91,7 +115,7 @@ impl Direct {
     ) -> Result<Response, String> {
         let snapshot = self.store.clone();
         let env = self.env();
-        let querier: MockQuerier<Empty> = MockQuerier::default();
+        let querier: MockQuerier<Empty> = self.querier();
         let api = self.api;
         let store = &mut self.store;
         let r = catch_unwind(AssertUnwindSafe(|| {
@@ -123,7 +147,7 @@ impl Direct {
         f: impl FnOnce(Deps, Env) -> StdResult<Binary>,
     ) -> Result<T, String> {
         let env = self.env();
-        let querier: MockQuerier<Empty> = MockQuerier::default();
+        let querier: MockQuerier<Empty> = self.querier();
         let api = self.api;
         let r = catch_unwind(AssertUnwindSafe(|| {
             let deps = Deps { storage: &self.store, api: &api, querier: QuerierWrapper::new(&querier) };
